@@ -7,7 +7,7 @@ use tower::{Layer, Service};
 use tower_resilience_hedge::{Hedge, HedgeError, HedgeLayer};
 
 pub struct HedgeAd {
-    svc: Option<Hedge<Inner>>,
+    svc: Option<Handles<Hedge<Inner>>>,
 }
 impl HedgeAd {
     pub fn new() -> Self {
@@ -19,7 +19,7 @@ impl Adapter for HedgeAd {
         "hedge"
     }
     fn gen_cfg(&mut self, rng: &mut Rng, _size: Size) -> Value {
-        json!({"max": 1 + rng.below(4), "mode": *rng.pick(&["fixed", "fixed", "par", "dyn"]), "d": 1 + rng.below(3), "lazy": if rng.pct(30) { 1 } else { 0 }})
+        json!({"hm": rng.below(3), "max": 1 + rng.below(4), "mode": *rng.pick(&["fixed", "fixed", "par", "dyn"]), "d": 1 + rng.below(3), "lazy": if rng.pct(30) { 1 } else { 0 }})
     }
     fn build(&mut self, cfg: &Value, sim: &mut Sim) {
         let mut b = HedgeLayer::builder().max_hedged_attempts(cfg["max"].as_u64().unwrap() as usize);
@@ -28,14 +28,15 @@ impl Adapter for HedgeAd {
             "par" => b.no_delay(),
             _ => b.delay_fn(|k| Duration::from_millis(if k == 1 { 2 } else { 1 })),
         };
-        self.svc = Some(b.build().layer(Inner::new(&sim.w)));
+        self.svc = Some(Handles::new(b.build().layer(Inner::new(&sim.w)), cfg["hm"].as_u64().unwrap_or(0)));
     }
     fn mk(&mut self, req: &Req) -> CallFut {
-        let mut s = self.svc.as_ref().unwrap().clone();
-        let w = futures::task::noop_waker();
-        let mut cx = std::task::Context::from_waker(&w);
-        let _ = s.poll_ready(&mut cx);
-        let f = s.call(req.clone());
+        let f = self.svc.as_mut().unwrap().with(|s| {
+            let w = futures::task::noop_waker();
+            let mut cx = std::task::Context::from_waker(&w);
+            let _ = s.poll_ready(&mut cx);
+            s.call(req.clone())
+        });
         Box::pin(async move {
             match f.await {
                 Ok(r) => Out::Ok { val: r.serial, req: r.req },
